@@ -288,7 +288,16 @@ pub fn gen_solve(r: &mut Rng, tier: &str, rooms: u8, name: &'static str) -> Vec<
                 // the f32 corners of the room stage, as whole runs
                 inst = if i % 20 == 3 { gen::gen_f32_shrink_does_not_fit(r) } else { gen::gen_f32_corner(r) };
             }
-            let small = small && inst.parts.len() <= 7 && inst.courses.len() <= 4;
+            let mut small = small && inst.parts.len() <= 7 && inst.courses.len() <= 4;
+            if rooms == 2 && i % 10 == 1 {
+                if i % 20 == 1 {
+                    inst = gen::gen_fixed_unpopular_conflict_small(r);
+                    small = true;
+                } else {
+                    inst = gen::gen_fixed_unpopular_conflict_medium(r);
+                    small = false;
+                }
+            }
             let scheds: Vec<Value> = (0..scale(tier, 3, 6)).map(|_| Sched::gen(r).to_json()).collect();
             let threads: Vec<u64> = (0..scheds.len()).map(|j| [1u64, 2, 3, 4, 8][(i + j) % 5]).collect();
             Case { stream: name, data: json!({"inst": inst.to_json(), "scheds": scheds, "threads": threads, "brute": small}) }
@@ -407,6 +416,18 @@ pub fn run_solve(data: &Value) -> Vec<Line> {
                 lines.push(Line::direct(&["C17"], ok, format!("with rooms {:?}, optimum without room limits {:?}", got, opt_norooms)));
             }
         }
+    } else if inst.rooms.is_some() && !known_class && !verdicts.is_empty() && tree.as_ref().map_or(false, |t| t.complete) {
+        // C17 beyond the brute-force range: the reference optimum without room limits is the complete
+        // search of the Lean model of the unchanged algorithm (optimal outside the class of F1 by
+        // Props.C02_partial), independent of the code under test
+        if let Some(g) = verdicts[0].1 {
+            let mut nr = inst.clone();
+            nr.rooms = None;
+            let mut l = Line::spec(&["C17"], "B", nr.to_text(), String::new());
+            l.expect = format!("BESTGE:{}", g);
+            l.what = format!("with rooms {} must not exceed the model's optimum without room limits", g);
+            lines.push(l);
+        }
     }
     lines
 }
@@ -490,7 +511,7 @@ pub fn run_engine(data: &Value) -> Vec<Line> {
         let tag = format!("threads={} sched={}", threads, s.to_json());
         let finished = !(out.deadlock || out.budget);
         lines.push(Line::direct(
-            if has_panic { &["C19"] } else { &["C04"] },
+            if has_panic { &["C19"] } else { &["C04", "C09"] },
             finished,
             format!("{} ({})", if finished { "run finished" } else if out.budget { "step budget used up" } else { "no runnable thread while some worker unfinished (deadlock)" }, tag),
         ).trivial(!nontrivial));
